@@ -232,6 +232,28 @@ def certOK (need : String → String → Nat → List Nat) (G : Graph) (C : Cert
 def badNodes (need : String → String → Nat → List Nat) (G : Graph) (C : Cert) : List Nat :=
   (List.range G.size).filter (fun n => !nodeOK need G C n)
 
+/-! ## The tracked variables of an activation are bit fields of one word
+
+`md` packs up to six variables of the C function: the open(2)-flags variable (bits 0..15), the assert-mask variable (bits
+16..47) and up to four guard variables (8 bits each from bit 48).  `fieldsOK` (per-run obligation `gen_fieldsOK`) checks
+that every node of the regenerated graph reads / writes ONE of these fields and nothing else; `Sound.upd_semantics` etc. show
+that such a node is an assignment to that variable which leaves the other variables alone. -/
+abbrev fieldLo : Nat := 65535
+abbrev fieldHi : Nat := 4294967295 <<< 16
+def fieldGuard (k : Nat) : Nat := 255 <<< (48 + 8 * k)
+abbrev wordAll : Nat := 1208925819614629174706175     -- 2^80 - 1
+def fields : List Nat := [fieldLo, fieldHi, fieldGuard 0, fieldGuard 1, fieldGuard 2, fieldGuard 3]
+
+def opFieldsOK : Op → Bool
+  | .modeSet m => m &&& fieldLo == m || m &&& fieldHi == m            -- (functions with ONE tracked variable only)
+  | .modeOr x => x &&& fieldLo == x || x &&& fieldHi == x
+  | .modeUpd k o => fields.any (fun f => k == wordAll - f && o &&& f == o)
+  | .modeTest m v _ => (List.range 4).any (fun j => m == fieldGuard j) && v &&& m == v
+  | .assertMd sh => sh == 16 || sh == 0
+  | _ => true
+
+def fieldsOK (G : Graph) : Bool := (List.range G.size).all (fun n => opFieldsOK (G.node n).op)
+
 /-! ## Entry points = address-taken functions of the slice
 
 Functions of the *program* are identified by their position in the IR (`Gen.Sandbox.progFns`: id ↦ C name, definition
